@@ -13,8 +13,9 @@ judges every observation.  Histories: the TLC-enumerated two- and three-post his
 every wide single constraint again behind 2-3 earlier encodings in other managers (all orders, sampled in quick), and a
 seeded random driver with larger constraints and interleaved managers.
 Spellings of a constraint that TLC does not see (it judges the constraint as written): Ineq(..) vs. comparison
-operators, Term objects kept and SHARED between inequalities, every coefficient and the bound multiplied by a huge
-positive factor (2^54..2^62: same satisfying set).  "Cofactor histories" (an inequality, then the residual
+operators, negative terms SUBTRACTED (`ex - k*lit`, bare `ex - lit`), Term objects kept and SHARED between inequalities,
+the same Ineq object posted twice or inspected (isclause / tostr) before it is posted, every coefficient and the bound
+multiplied by a huge positive factor (2^54..2^62: same satisfying set).  "Cofactor histories" (an inequality, then the residual
 inequality of one branch of its top decision in the same manager) come both from SatLayer!PostCofactor and from the
 random driver.
 Thorough tier only, no property claim: propagation strength (ac_stage) -- TLC states for which kinds unit
@@ -108,8 +109,9 @@ def run_process(case):
     names = case["vars"]
     mgrs = []
     obs = []
+    ineqs = {}      # Ineq objects by event index (an object may be posted again: events with same_as)
     shared = {}     # Term objects the "user program" keeps and reuses in several inequalities (events with share=1)
-    for e in case["events"]:
+    for idx, e in enumerate(case["events"]):
         o = {"refused": 0, "proj": [], "sat": 0, "model": [], "negs": [], "evals": [], "store": [], "root": -1,
              "conflict": 0, "implied": []}
         if e["ev"] == "new":
@@ -140,21 +142,33 @@ def run_process(case):
                     #   scale  every coefficient and the bound times a huge positive factor (same satisfying set;
                     #          integer coefficients far beyond 2^53, where float arithmetic would round)
                     #   share  the Term objects are kept by the caller and reused in later inequalities
+                    #   minus  a term with coefficient -k is SUBTRACTED: `ex - k*lit`, a bare `ex - lit` for k = 1
+                    #   same_as  the very Ineq object built for an earlier post of the same constraint is posted again
+                    #   inspect  the program looks at the inequality (isclause(), tostr()) before posting it
                     K = int(e.get("scale", 1))
-                    ex = Expr()
-                    for (v, s, k) in c["terms"]:
-                        if e.get("share", 0):
-                            if (v, s, k * K) not in shared:
-                                shared[(v, s, k * K)] = Term(L(v, s), k * K)
-                            ex = ex + shared[(v, s, k * K)]
-                        else:
-                            ex = ex + Term(L(v, s), k * K)
-                    op, b = c["op"], c["bound"] * K
-                    if e.get("spell", 0) == 1:
-                        ineq = Ineq(ex, Expr() + b, "==" if op == "=" else op)
+                    if "same_as" in e and e["same_as"] in ineqs:
+                        ineq = ineqs[e["same_as"]]
                     else:
-                        ineq = (ex >= b) if op == ">=" else (ex <= b) if op == "<=" else (ex > b) if op == ">" \
-                            else (ex < b) if op == "<" else (ex == b)
+                        ex = Expr()
+                        for (v, s, k) in c["terms"]:
+                            if e.get("share", 0):
+                                if (v, s, k * K) not in shared:
+                                    shared[(v, s, k * K)] = Term(L(v, s), k * K)
+                                ex = ex + shared[(v, s, k * K)]
+                            elif e.get("minus", 0) and k < 0:
+                                ex = ex - (L(v, s) if k * K == -1 else Term(L(v, s), -k * K))
+                            else:
+                                ex = ex + Term(L(v, s), k * K)
+                        op, b = c["op"], c["bound"] * K
+                        if e.get("spell", 0) == 1:
+                            ineq = Ineq(ex, Expr() + b, "==" if op == "=" else op)
+                        else:
+                            ineq = (ex >= b) if op == ">=" else (ex <= b) if op == "<=" else (ex > b) if op == ">" \
+                                else (ex < b) if op == "<" else (ex == b)
+                    ineqs[idx] = ineq
+                    if e.get("inspect", 0):
+                        ineq.isclause()
+                        ineq.tostr()
                     sm.pseudoboolencoding(ineq, bool(c["dec"]))
                 else:
                     raise ValueError(c["kind"])
@@ -187,6 +201,25 @@ def run_process(case):
 # --------------------------------------------------------------------------- cases
 def reaches_diagram(c) -> bool:
     return c["kind"] == "pb" and c["op"] in (">=", "<=")
+
+
+def lifecycle(events, rng):
+    """Object-lifecycle spellings for a TLC history: a pseudo-Boolean constraint that was posted before (same record)
+    is posted again as the SAME Ineq object; half of the inequalities are inspected (isclause / tostr) before they are
+    posted; half are built with binary minus for their negative terms."""
+    out, first = [], {}
+    for i, e in enumerate(events):
+        if e["ev"] == "post" and e["c"]["kind"] == "pb":
+            e = dict(e)
+            key = json.dumps(e["c"], sort_keys=True)
+            if key in first:
+                e["same_as"] = first[key]
+            else:
+                first[key] = i
+                e["inspect"] = rng.randint(0, 1)
+                e["minus"] = rng.randint(0, 1)
+        out.append(e)
+    return out
 
 
 def with_solves(events, names, rng, only=None):
@@ -275,7 +308,8 @@ def random_cases(rng: random.Random, n: int):
                 b = rng.randint(lo - 1, hi + 1)
                 op = rng.choice([">=", ">=", ">=", "<=", "<=", ">", "<", "="])
                 c = con(kind="pb", terms=terms, op=op, bound=b, dec=rng.randint(0, 1))
-            e = {"ev": "post", "m": m, "c": c, "spell": rng.randint(0, 1), "share": rng.randint(0, 1)}
+            e = {"ev": "post", "m": m, "c": c, "spell": rng.randint(0, 1), "share": rng.randint(0, 1),
+                 "inspect": rng.randint(0, 1), "minus": rng.randint(0, 1)}
             if c["kind"] == "pb" and len(c["terms"]) <= 4 and all(abs(t[2]) <= 4 for t in c["terms"]) and rng.random() < 0.35:
                 e["scale"] = rng.choice(HUGE)
             ev.append(e)
@@ -290,6 +324,14 @@ def random_cases(rng: random.Random, n: int):
                     ev.append({"ev": "post", "m": rng.randint(1, made), "share": 1, "spell": rng.randint(0, 1),
                                "c": con(kind="pb", terms=tt, op=rng.choice([">=", ">=", "<="]), bound=rng.randint(lo, hi + 1),
                                         dec=rng.randint(0, 1))})
+            if rng.random() < 0.3:
+                # lifecycle history: one inequality object (strict ones included), inspected or not, posted twice
+                vs = rng.sample(names, rng.randint(2, 4))
+                tt = [[v, rng.randint(0, 1), rng.choice([1, 1, 2, 3, 4, -1, -2])] for v in vs]
+                lo, hi = sum(min(t[2], 0) for t in tt), sum(max(t[2], 0) for t in tt)
+                cc = con(kind="pb", terms=tt, op=rng.choice([">", ">", "<", ">=", "<="]), bound=rng.randint(lo - 1, hi), dec=rng.randint(0, 1))
+                ev.append({"ev": "post", "m": m, "c": cc, "spell": rng.randint(0, 1), "inspect": rng.randint(0, 1), "minus": rng.randint(0, 1)})
+                ev.append({"ev": "post", "m": rng.randint(1, made), "c": cc, "same_as": len(ev) - 1})
             if rng.random() < 0.3:
                 # cofactor history: an inequality in normal shape (distinct variables, positive coefficients), then the
                 # residual inequality of one branch of its top decision, same manager, same variable names
@@ -387,7 +429,8 @@ def features_of(e, case, idx):
     c = e["c"]
     return {"kind": c["kind"], "op": c["op"], "meth": c["meth"], "k": c["k"], "dec": c["dec"],
             "earlier_managers": sum(1 for x in case["events"][:idx] if x["ev"] == "new") - 1 if e["ev"] != "new" else 0,
-            "event": e["ev"], "scaled": int("scale" in e), "shared_terms": int(e.get("share", 0))}
+            "event": e["ev"], "scaled": int("scale" in e), "shared_terms": int(e.get("share", 0)),
+            "same_object_again": int("same_as" in e), "inspected": int(e.get("inspect", 0)), "binary_minus": int(e.get("minus", 0))}
 
 
 BATCH = 25000
@@ -580,7 +623,7 @@ def _run(ctx: Ctx, runner: Runner) -> int:
         names = (V7[:6] if tier == "quick" else V7) if name.startswith("amo") else V7[:2] if (name, tier) == ("wide", "quick") else V7[:3]
         for h in hs:
             (big if len(names) > 3 else small).append(
-                json.dumps({"vars": names, "detail": 1, "events": with_solves(h["events"], names, rng), "src": name}))
+                json.dumps({"vars": names, "detail": 1, "events": with_solves(lifecycle(h["events"], rng), names, rng), "src": name}))
         if name == "wide":
             singles, wide_names = [h["events"][-1]["c"] for h in hs], names
         if name == "seq":
